@@ -1324,6 +1324,11 @@ impl Engine for StorEngine {
     ks::install_hooks(keygen.clone(), yn, yd);
     ks::set_hook_yields(false);
     let ctl = Rc::new(FaultCtl::default());
+    // one key store in eight leaves out the optional `alg` member of the JWKs it generates
+    if ctx::chance(1, 8) {
+      ctl.strip_alg.set(true);
+      ctx::stat("probe.key_store_without_alg");
+    }
     // one key store in six does not set `kid` on generated JWKs
     if ctx::chance(1, 6) {
       ctl.strip_kid.set(true);
